@@ -183,6 +183,14 @@ pub fn run(ctx: &Ctx) -> Report {
         let ops = vec![Op::Add { name: "a".into(), size: sz as u64, src: rng.bytes(sz, 2) }, Op::Finalize];
         check(&mut rep, &mut model, &cfg, &ops, 1, &mut rng);
     }
+    // text-like data across a compression block boundary, one byte at a time (the code descriptions at the
+    // head of a compressed meta-block are then fed to the decoder byte by byte, hundreds of calls without output)
+    {
+        let cfg = Cfg { layers: L_COMP, level: 5, recipients: vec![], reader: 0 };
+        let sz = CONSTS.block + if CONSTS.scaled { 3 * CONSTS.block } else { 400 << 10 };
+        let ops = vec![Op::Add { name: "small.txt".into(), size: 20, src: rng.log_text(20) }, Op::Add { name: "var/log/app.log".into(), size: sz as u64, src: rng.log_text(sz) }, Op::Finalize];
+        check(&mut rep, &mut model, &cfg, &ops, 1, &mut rng);
+    }
     let n = if CONSTS.scaled { ctx.budget(1200, 20000) } else { ctx.budget(90, 1200) };
     for i in 0..n {
         let cfg = Cfg::make(&mut rng, (i % 4) as u8);
